@@ -1,4 +1,13 @@
-"""all translators, in one place (used by setup and by update_baseline)"""
-from . import lru_steps, sandbox, undefined_table, lexer_key
+"""all translators, in one place (used by setup and by update_baseline): every module translate/<x>.py that defines `gen()`
+(returning (Gen file name, Lean source)) is registered automatically"""
+import importlib
+from pathlib import Path
 
-ALL = [lru_steps.gen, sandbox.gen, undefined_table.gen, lexer_key.gen]
+_SKIP = {"__init__", "registry", "common", "update_baseline"}
+ALL = []
+for _p in sorted(Path(__file__).parent.glob("*.py")):
+    if _p.stem in _SKIP:
+        continue
+    _m = importlib.import_module(f"translate.{_p.stem}")
+    if hasattr(_m, "gen"):
+        ALL.append(_m.gen)
